@@ -1,6 +1,7 @@
 package verifsim
 
 import (
+	"time"
 	"bytes"
 	"context"
 	"fmt"
@@ -70,11 +71,24 @@ func (h *hist) openConns(nconn int) bool {
 }
 
 // commit performs one committed write transaction in the current mode.
+// busyRetry is the application's busy handler (busy_timeout = 2 s of simulated
+// time): LiteFS itself holds read locks now and then (a snapshot being streamed
+// to a replica, an export), and a writer that meets them waits and tries again.
+func (h *hist) busyRetry(tx func() TxResult) TxResult {
+	res := tx()
+	for i := 0; i < 100 && res.Outcome == "busy"; i++ {
+		h.r.Count("hist.busy-retry")
+		time.Sleep(20 * time.Millisecond)
+		res = tx()
+	}
+	return res
+}
+
 func (h *hist) commit(t *Tape) (string, bool) {
 	c := h.conns[t.Next(len(h.conns))]
 	if h.wal {
 		prog := GenWalProgram(t, h.ref.N(), h.maxPages)
-		res := c.WalWriteTx(prog, h.ref)
+		res := h.busyRetry(func() TxResult { return c.WalWriteTx(prog, h.ref) })
 		if res.Outcome == OutCommit {
 			h.ref = res.After
 		}
@@ -89,7 +103,7 @@ func (h *hist) commit(t *Tape) (string, bool) {
 	c.Mode = h.jmode
 	prog := GenProgram(t, h.ref.N(), h.maxPages, LockPgno(h.pageSize))
 	before := h.ref.N()
-	res := c.WriteTx(prog, h.ref)
+	res := h.busyRetry(func() TxResult { return c.WriteTx(prog, h.ref) })
 	if res.Outcome == OutCommit {
 		h.ref = res.After
 	}
@@ -106,7 +120,9 @@ func (h *hist) commit(t *Tape) (string, bool) {
 func (h *hist) toWAL() bool {
 	c := h.conns[0]
 	c.Mode = h.jmode
-	res := c.WriteTx(TxProgram{NewSize: maxU32(h.ref.N(), 1), Outcome: OutCommit, SetWAL: 1}, h.ref)
+	res := h.busyRetry(func() TxResult {
+		return c.WriteTx(TxProgram{NewSize: maxU32(h.ref.N(), 1), Outcome: OutCommit, SetWAL: 1}, h.ref)
+	})
 	if res.Outcome != OutCommit {
 		h.r.Failf("hist.commit-refused", "switch to WAL refused at %s: %v", res.FailedAt, res.Errno)
 		return false
@@ -132,7 +148,9 @@ func (h *hist) toRollback() bool {
 	}
 	c.UnlockAll()
 	c.Mode = h.jmode
-	res := c.WriteTx(TxProgram{NewSize: h.ref.N(), Outcome: OutCommit, SetWAL: 2}, h.ref)
+	res := h.busyRetry(func() TxResult {
+		return c.WriteTx(TxProgram{NewSize: h.ref.N(), Outcome: OutCommit, SetWAL: 2}, h.ref)
+	})
 	if res.Outcome != OutCommit {
 		h.r.Failf("hist.commit-refused", "switch back to a rollback journal refused at %s: %v", res.FailedAt, res.Errno)
 		return false
